@@ -88,6 +88,8 @@ class OpGen:
         self.budget = 6 + 5 * size
         self.nfrag = 0
         self.nvar = 0
+        self.nmg = 0
+        self.p_merged_groups = 0.12 if p_alias > 0 else 0.0
 
     # ---- variables ----------------------------------------------------
     def bool_var(self):
@@ -260,6 +262,13 @@ class OpGen:
         if inner and r.random() < 0.5:
             items.append("..." + r.choice(inner))
             self.features.add("quirk-candidate")
+        # SEVERAL groups of same-key object fields at one level, each group merging DIFFERENT sub-selections of the same
+        # field (`a: pet { name } a: pet { age }  b: pet { nick } b: pet { color } ...`): the merged selection lists are
+        # temporaries built one after the other (a cache keyed on their identity would hand group b the fields of group a)
+        if kind in ("object", "interface") and r.random() < self.p_merged_groups and depth <= self.size + 1:
+            txt = self.merged_groups(fields, depth)
+            if txt:
+                items.extend(txt)
         # repeat an item sometimes (same-key merging of identical nodes)
         if r.random() < 0.2:
             it = r.choice(items)
@@ -268,6 +277,39 @@ class OpGen:
                 self.features.add("repeated-selection")
         sep = r.choice([" ", "\n  ", ", "])
         return "{" + sep + sep.join(items) + sep + "}"
+
+    def merged_groups(self, fields, depth):
+        r = self.rng
+        cands = []
+        for f in fields:
+            base = ty_base(f["type"])
+            if kind_of(self.desc, base) != "object":
+                continue
+            leafs = [g for g in self.fields_of(base) if kind_of(self.desc, ty_base(g["type"])) in ("scalar", "enum")
+                     and not any(a["type"][0] == "nonNull" and a.get("default") is None for a in g.get("args") or [])]
+            if len(leafs) >= 2:
+                cands.append((f, leafs))
+        if not cands:
+            return None
+        f, leafs = r.choice(cands)
+        args = self.arguments(f)
+        if args is None:
+            return None
+        out = []
+        for g in range(r.randint(2, 4)):
+            key = "mg%d_%d" % (self.nmg, g)
+            self.keys[key] = (f["name"], args, ty_str(f["type"]))
+            parts = []
+            for _ in range(r.randint(2, 3)):
+                sub = r.sample(leafs, r.randint(1, min(2, len(leafs))))
+                parts.append("%s: %s%s { %s }" % (key, f["name"], args, " ".join(x["name"] for x in sub)))
+            out.extend(parts)
+        self.nmg += 1
+        self.budget -= 2
+        self.features.add("merged-groups")
+        if "[" in ty_str(f["type"]):
+            self.features.add("list-field")
+        return out
 
     def field(self, f, depth):
         r = self.rng
